@@ -282,6 +282,15 @@ def main(run):
     cases[:0] = [dict(dist="gaussian", relative=True, center=10.0, width=1.0, npts=2, nsigmas=3.0, lb=0.0, ub=float("inf"), cut="lower"),
                  dict(dist="gaussian", relative=True, center=50.0, width=0.1, npts=1, nsigmas=3.0, lb=0.0, ub=float("inf"), cut="none"),
                  dict(dist="schulz", relative=True, center=100.0, width=0.002, npts=40, nsigmas=8.0, lb=0.0, ub=float("inf"), cut="none")]
+    # directed: nsigmas * PD = 1 puts the first grid point exactly on zero (the edge of the support of the lognormal and
+    # Schulz distributions, and the lower hard limit of every size parameter); nsigmas * PD > 1 with an interior point on it
+    directed = []
+    for dist in DISTS:
+        for pd_, ns_ in ((0.125, 8.0), (0.25, 4.0), (0.5, 2.0), (0.5, 3.0), (1.0, 1.0)):
+            for npts_ in (2, 5, 31):
+                directed.append(dict(dist=dist, relative=True, center=rng.choice([64.0, 10.0, 3.7, 250.0]), width=pd_, npts=npts_, nsigmas=ns_,
+                                     lb=0.0, ub=float("inf"), cut="edge-of-support"))
+    cases[3:3] = directed if thorough else rng.sample(directed, 40)
     stats = dict(by_dist={}, by_cut={}, relative=0, absolute=0, degenerate=0, empty=0, sizes=dict(min=10 ** 9, max=0))
     impl = []
     evals, distinct = 0, set()
